@@ -34,7 +34,7 @@ for d in sorted(glob.glob(os.path.join(HERE, "seeded", "C*-*"))):
         sh("git -C /repo checkout -- . && git -C /repo clean -fdq")
     viol = re.findall(r"^VIOLATION property=\S+ replay=\S+ obligation=(\S+)( no-failing-input-found)?", out, re.M)
     und = re.findall(r"^UNDECIDED property=\S+ (.*)$", out, re.M)
-    verdict = "VIOLATION" if rc == 1 else ("UNDECIDED" if rc == 2 else "not detected")
+    verdict = ("VIOLATION" if viol else "CHECK-ERROR") if rc == 1 else ("UNDECIDED" if rc == 2 else ("not detected" if rc == 0 else "CHECK-ERROR"))
     meta = {
         "id": sid,
         "property": prop,
